@@ -540,6 +540,8 @@ PL_METHODS = {
     ("SI", "_has_overlap_single_interval"): {"SI": "SingleInterval_has_overlap_single_interval"},
     ("SI", "_union_single_interval"): {"SI": "SingleInterval_union_single_interval"},
     ("CI", "_union_single_interval"): {"SI": "CompoundInterval_union_single_interval"},
+    ("VI", "_lift_over_chromosome_location_single_interval"):
+        {"SI": "VariantInterval_lift_over_chromosome_location_single_interval"},
 }
 GUARD_FAILS = {}   # name of a view fact -> list of violated expectations (filled per run by gen_kernels)
 REPO = [None]
@@ -676,9 +678,39 @@ def cdsv_view_guards(repo):
     return bad
 
 
+# `CompoundInterval.from_single_intervals` as GenPrelude's `fromSingleIntervalsCheck` reads it (parent-less intervals:
+# the set of parents is {None}): ValueError for an empty list or more than one strand, else the unvalidated constructor
+FROM_SINGLE_INTERVALS_SRC = '''
+errors = []
+if not intervals:
+    errors.append("List of intervals must be nonempty")
+if len({interval.strand for interval in intervals}) > 1:
+    errors.append(f"Intervals must all have same strand: {set([interval.strand for interval in intervals])}")
+interval_parents = {
+    interval.parent.strip_location_info() if interval.parent else None for interval in intervals
+}
+if len(interval_parents) > 1:
+    errors.append(
+        "Intervals must all have same parent: {}".format(
+            set([interval.parent.id if interval.parent else None for interval in intervals])
+        )
+    )
+if errors:
+    raise ValueError("\\n".join(errors))
+return cls._from_single_intervals_no_validation(intervals)
+'''
+
+
 def algebra_guards(repo):
     """facts the parent-less set-algebra kernels rely on: name -> violated expectations"""
-    out = {"empty_len": [], "parentless_ci": []}
+    out = {"empty_len": [], "parentless_ci": [], "from_single_intervals": []}
+    try:
+        fsi = find_func(find_class(module_of(repo, "location/location_impl.py"), "CompoundInterval"), "from_single_intervals")
+        if src_of(body_no_doc(fsi)) != canon(FROM_SINGLE_INTERVALS_SRC):
+            out["from_single_intervals"].append("CompoundInterval.from_single_intervals differs from the text "
+                                                "`fromSingleIntervalsCheck` (GenPrelude) was written from")
+    except Exception as e:  # noqa
+        out["from_single_intervals"].append(f"{type(e).__name__}: {e}")
     try:
         mod = module_of(repo, "location/location_impl.py")
         ecls = find_class(mod, "_EmptyLocation")
@@ -764,6 +796,11 @@ def exc_subclasses(repo):
         for a in ancestors(c):
             sub.setdefault(a, set()).add(c)
     return sub
+
+
+class _Rebind(ast.stmt):
+    """marker: end of a block in which an Optional local was narrowed to its value; rebinds it as `some value`"""
+    _fields = ()
 
 
 class _EndTry(ast.stmt):
@@ -1112,6 +1149,8 @@ class K:
                     return [], f"({ch[0]}.vend - {ch[0]}.vstart)", "Int"
                 if self.spec.get("calls_pl"):
                     b, c, t = self.expr(a)
+                    if t.startswith("List:") and lean_type(t) is not None:
+                        return b, f"(({c}.length : Nat) : Int)", "Int"
                     if t == "SI":
                         return b, f"({c}.«end» - {c}.start)", "Int"
                     if t == "OptSI":
@@ -1341,6 +1380,15 @@ class K:
             if t3 != "Strand":
                 raise Unsupported("CompoundInterval(...): strand argument")
             return b1 + b2 + b3, f"(LocOut.compound {c1} {c2} {c3} {flag})", "LocOut"
+        if attr_chain(f) == ["CompoundInterval", "from_single_intervals"] and len(inner.args) == 1 and not inner.keywords:
+            # the validating classmethod: hand-written `fromSingleIntervalsCheck` (GenPrelude), pinned to the source
+            if GUARD_FAILS.get("from_single_intervals"):
+                raise Unsupported("from_single_intervals: " + "; ".join(GUARD_FAILS["from_single_intervals"]))
+            b, c, t = self.expr(inner.args[0])
+            if t != "List:SI":
+                raise Unsupported(f"from_single_intervals of {t}")
+            tmp = self.fresh()
+            return b + [(tmp, f"fromSingleIntervalsCheck {c}")], f"(LocOut.fromBlocks {tmp} {flag})", "LocOut"
         if attr_chain(f) == ["CompoundInterval", "_from_single_intervals_no_validation"] and len(inner.args) == 1 \
                 and not inner.keywords:
             b, c, t = self.expr(inner.args[0])
@@ -1740,6 +1788,49 @@ class K:
         return (f"(match {', '.join(lname(nm) for nm in names)} with\n | {pats} =>\n {okpath}\n"
                 f" | {', '.join('_' for _ in names)} =>\n {handler})")
 
+    @staticmethod
+    def is_none_expr(e):
+        """`None` or the singleton `EmptyLocation()`"""
+        return (isinstance(e, ast.Constant) and e.value is None) or (
+            isinstance(e, ast.Call) and isinstance(e.func, ast.Name) and e.func.id == "EmptyLocation"
+            and not e.args and not e.keywords)
+
+    def some_guard(self, s, rest):
+        """`if x is not None:` / `if x is not EmptyLocation():` on an Optional local (Option SI, Opt:T, T ≠ Int)
+        -> `match x with | some x => body…  | none => orelse…` with `x` narrowed to its value in the body (the
+        continuation is translated in both arms with `x` at its Optional type).  None when not of that shape."""
+        t = s.test
+        if not (self.loops and isinstance(t, ast.Compare) and len(t.ops) == 1 and isinstance(t.ops[0], ast.IsNot)
+                and isinstance(t.left, ast.Name) and self.is_none_expr(t.comparators[0])):
+            return None
+        nm = t.left.id
+        ty = self.types.get(nm, "")
+        inner = "SI" if ty == "OptSI" else (ty[4:] if ty.startswith("Opt:") and ty != "Opt:Int" else None)
+        if inner is None or any(nm in c["state"] or nm in c["targets"] for c in self.ctx):
+            return None
+        stores = [nd for st in s.body for nd in ast.walk(st) if isinstance(nd, ast.Name) and nd.id == nm
+                  and isinstance(nd.ctx, ast.Store)]
+        if stores:
+            return None
+        saved = dict(self.types)
+        # the body sees the value; afterwards the name is Optional again (rebound from the value)
+        self.types[nm] = inner
+        fresh_v = self.fresh()
+        body_stmts = list(s.body)
+        try:
+            some_arm = self.block_then(body_stmts, nm, ty, inner, rest)
+        finally:
+            self.types = dict(saved)
+        none_arm = self.block(list(s.orelse) + rest)
+        self.types = saved
+        return f"(match {lname(nm)} with\n | some {lname(nm)} =>\n {some_arm}\n | none =>\n {none_arm})"
+
+    def block_then(self, body, nm, opt_ty, inner, rest):
+        """translate `body` with `nm : inner`, then `rest` with `nm` back at its Optional type"""
+        marker = _Rebind()
+        marker.name, marker.opt_ty = nm, opt_ty
+        return self.block(body + [marker] + rest)
+
     def lazy_attribute(self, s, rest):
         """`if self.A is None: self.A = E` + `return self.A`  ->  E (see the module docstring), else None"""
         if not (self.loops and isinstance(s, ast.If) and not s.orelse and len(s.body) == 1 and rest
@@ -1779,6 +1870,9 @@ class K:
                 return ".ok yield_"
             raise Unsupported("control reaches the end of the function without return")
         s, rest = stmts[0], stmts[1:]
+        if isinstance(s, _Rebind):
+            self.types[s.name] = s.opt_ty
+            return f"let {lname(s.name)} : {lean_type(s.opt_ty)} := some {lname(s.name)}\n" + self.block(rest)
         if isinstance(s, _EndTry):
             self.pure -= 1
             try:
@@ -1856,6 +1950,10 @@ class K:
         if isinstance(s, ast.Return):
             if s.value is None:
                 raise Unsupported("bare return")
+            if self.loops and isinstance(s.value, ast.IfExp):
+                # `return a if c else b`: only the branch taken is evaluated
+                return self.block([ast.If(test=s.value.test, body=[ast.Return(value=s.value.body)],
+                                          orelse=[ast.Return(value=s.value.orelse)])])
             b, c, t = self.expr(s.value)
             return self.wrap(b, self.ok_return(self.ret_value(c, t)))
         if isinstance(s, ast.Raise):
@@ -1984,6 +2082,9 @@ class K:
             return self.wrap(b, f"let {lname(target.id)}{ann} := {c}\n" + self.block(rest))
         if isinstance(s, ast.If):
             guarded = self.none_guard(s, rest)
+            if guarded is not None:
+                return guarded
+            guarded = self.some_guard(s, rest)
             if guarded is not None:
                 return guarded
             b, c, t = self.expr(s.test)
@@ -2172,6 +2273,11 @@ KERNELS = [
     dict(name="CompoundInterval_union_single_interval", file="location/location_impl.py", cls="CompoundInterval",
          fn="_union_single_interval", args=[("self", "CI"), ("other", "SI")], ret="LocOut", loops=True, parentless=True,
          calls_pl=True, locals={"overlapping_blocks": "List:SI", "non_overlapping_blocks": "List:SI"}),
+    # C13: the per-block lift of a parent-less CompoundInterval (the generated single-interval kernel per block)
+    dict(name="VariantInterval_lift_over_chromosome_location_compound_interval", file="gene/variants.py",
+         cls="VariantInterval", fn="_lift_over_chromosome_location_compound_interval",
+         args=[("self", "VI"), ("location", "CI")], ret="LocOut", loops=True, calls_pl=True,
+         locals={"lifted_single_intervals": "List:SI"}),
     # CUT before `_ = r._single_intervals` (forces the per-block SingleInterval constructors, i.e. the bound checks
     # against a parent's sequence; nothing for a parent-less location): returns `r` = the constructor's arguments
     dict(name="CompoundInterval_shift_position", file="location/location_impl.py", cls="CompoundInterval",
